@@ -19,7 +19,7 @@ from symx import Symx, render, path_truth
 
 META = {
     'level': 'other',
-    'decides': 'push/pop/notify/delegate counts on every CFG path of each wrapper closure installed by inspector_handle_register, the identity of the stack shared by matching start and end wrappers, and the step/step_end bracket',
+    'decides': 'push/pop/notify/delegate counts on every CFG path of each wrapper closure installed by inspector_handle_register, the identity of the stack shared by matching start and end wrappers, and the step/step_end bracket; the exact opcode sets the log and selfdestruct wrappers are installed on',
     'does_not_decide': 'LIFO order across frames, which follows from the frame loop\'s own stack discipline (C07), assumed',
     'explanation': 'Path enumeration with partial evaluation of each closure body; event sequences per path; identity of captured Rc stacks by value origin in the registering function.',
 }
